@@ -19,5 +19,6 @@ import vlib
 with vlib.Lock():
     vlib.build_harness()
     vlib.build_model_tools()
-print('setup: harness and driver built')
+    vlib.build_front_ends()
+print('setup: harness, driver, CLI binary and python extension built')
 PY
